@@ -7,7 +7,10 @@
 //      badop = index of the first getCost after which the object's state (cumWidth_, constrainingPos_, multiset of
 //      bounds) differs from the state before it, -1 if none: the clause "prediction leaves the state unchanged" read
 //      directly on the C++ object
-// case line: "RL b e n (k w t)*"   k=0 push, k=1 getCost
+//      when the case contains reads (k=2) a 4th section follows: " | R pos.. ; R pos.. ; ..." = what getPlacement() returned at
+//      each read, in order (badop indexes the ops with the reads removed)
+// case line: "RL b e n (k w t)*"   k=0 push, k=1 getCost, k=2 read getPlacement() now (w = t = 0); the placement is
+//      always read once more at the end
 #include "vh.hpp"
 #include <queue>
 #define private public
@@ -35,7 +38,15 @@ int main(int argc, char **argv) {
           if (sw > len) continue;
           // each push preceded by the query that predicts it
           std::vector<long long> ww, tt; std::vector<int> kk;
-          for (int i = 0; i < n; ++i) { ww.push_back(w[i]); tt.push_back(t[i]); kk.push_back(1); ww.push_back(w[i]); tt.push_back(t[i]); kk.push_back(0); }
+          auto rd = [&]() { ww.push_back(0); tt.push_back(0); kk.push_back(2); };
+          if (code % 2) rd();
+          for (int i = 0; i < n; ++i) {
+            ww.push_back(w[i]); tt.push_back(t[i]); kk.push_back(1);
+            if (code % 3 == 1) rd();   // a read between the prediction and the insertion
+            ww.push_back(w[i]); tt.push_back(t[i]); kk.push_back(0);
+            // the placement is read after every insertion (twice after the first one), not only at the end
+            rd(); if (i == 0) rd();
+          }
           emit(b, e, ww, tt, kk);
         }
       }
@@ -70,8 +81,11 @@ int main(int argc, char **argv) {
           w.push_back(qw); t.push_back(qt); k.push_back(1);
         }
         w.push_back(wi); t.push_back(ti); k.push_back(0); rem -= wi;
-        if (g.coin(30)) { w.push_back(wi); t.push_back(ti); k.push_back(1); }  // may not fit any more: only queried if it fits
-        if (k.back() == 1 && w.back() > rem) { w.pop_back(); t.pop_back(); k.pop_back(); }
+        // reads of the placement between the insertions (sometimes two in a row)
+        if (g.coin(40)) { w.push_back(0); t.push_back(0); k.push_back(2); if (g.coin(30)) { w.push_back(0); t.push_back(0); k.push_back(2); } }
+        if (g.coin(30)) { w.push_back(wi); t.push_back(ti); k.push_back(1);    // may not fit any more: only queried if it fits
+          if (w.back() > rem) { w.pop_back(); t.pop_back(); k.pop_back(); }
+          else if (g.coin(20)) { w.push_back(0); t.push_back(0); k.push_back(2); } }
       }
       emit(b, e, w, t, k);
     }
@@ -114,6 +128,7 @@ int main(int argc, char **argv) {
         else { ti = pos + (g.coin(50) ? 0 : gap); pos = ti + (g.coin(30) ? 0 : cw[i]); }
         if (g.coin(10)) { w.push_back(cw[i]); t.push_back(ti); k.push_back(1); }
         w.push_back(cw[i]); t.push_back(ti); k.push_back(0); used += cw[i];
+        if (g.coin(3)) { w.push_back(0); t.push_back(0); k.push_back(2); if (g.coin(30)) { w.push_back(0); t.push_back(0); k.push_back(2); } }
         int done = i + 1;
         if ((done == 33 || done == 65 || done == 129) && done < n && g.coin(50)) probe(len - used);
       }
@@ -122,13 +137,16 @@ int main(int argc, char **argv) {
       long long rem = len - used;
       if (rem > 0 && g.coin(70)) {
         long long sw = g.uni(1, std::min(rem, 3 * scale)); long long st = g.coin(50) ? e : g.uni(b, e);
+        if (g.coin(50)) { w.push_back(0); t.push_back(0); k.push_back(2); }
         w.push_back(sw); t.push_back(st); k.push_back(0); rem -= sw;
+        if (g.coin(50)) { w.push_back(0); t.push_back(0); k.push_back(2); }
         probe(rem);
       }
       // sometimes the probed cell itself is inserted last, predicted just before
       if (rem > 0 && g.coin(40)) {
         long long pw = std::min(P, rem); long long pt = g.coin(50) ? b - g.uni(0, 50) * scale : e;
         w.push_back(pw); t.push_back(pt); k.push_back(1);
+        if (g.coin(50)) { w.push_back(0); t.push_back(0); k.push_back(2); }
         w.push_back(pw); t.push_back(pt); k.push_back(0);
       }
       emit(b, e, w, t, k);
@@ -154,8 +172,11 @@ int main(int argc, char **argv) {
         while (!q.empty()) { r.push_back({q.top().absolutePos, q.top().weight}); q.pop(); }
         return r;
       };
+      std::vector<std::vector<int> > reads; long long opi = -1;
       for (size_t i = 0; i < n; ++i) {
         int k = (int)v[3 + 3 * i]; int w = (int)v[4 + 3 * i]; int t = (int)v[5 + 3 * i];
+        if (k == 2) { reads.push_back(leg.getPlacement()); continue; }
+        ++opi;
         if (k == 0) { costs.push_back(leg.push(w, t)); continue; }
         auto before = drain(leg.bounds); auto cw = leg.cumWidth_; auto cp = leg.constrainingPos_;
         { // how many bounds the descent passes (same loop condition as getDisplacement, on the drained copy)
@@ -167,7 +188,7 @@ int main(int argc, char **argv) {
           maxpassed = std::max(maxpassed, cnt);
         }
         costs.push_back(leg.getCost(w, t));
-        if (badop < 0 && (drain(leg.bounds) != before || leg.cumWidth_ != cw || leg.constrainingPos_ != cp)) badop = (long long)i;
+        if (badop < 0 && (drain(leg.bounds) != before || leg.cumWidth_ != cw || leg.constrainingPos_ != cp)) badop = opi;
       }
       auto pl = leg.getPlacement();
       leg.check();
@@ -176,6 +197,10 @@ int main(int argc, char **argv) {
       s << " | ";
       for (size_t i = 0; i < costs.size(); ++i) s << (i ? " " : "") << costs[i];
       s << " | " << maxpassed << " " << badop;
+      if (!reads.empty()) {
+        s << " |";
+        for (size_t r = 0; r < reads.size(); ++r) { s << (r ? " ; R" : " R"); for (int x : reads[r]) s << " " << x; }
+      }
       res = s.str();
     } catch (std::exception &ex) { res = std::string("THROW ") + ex.what(); }
     printf("%s\n", res.c_str());
